@@ -135,6 +135,30 @@ Proof.
   now destruct (MapGen.find cmp x r).
 Qed.
 
+(* ---- Foldable: foldr / foldl visit the values in increasing key order ---- *)
+
+Lemma foldl_elements : forall (V B : Type) (f : B -> V -> B) (m : Map K V) z,
+  @MapGen.foldl K B V f z m = fold_left (fun acc kv => f acc (snd kv)) (elements m) z.
+Proof.
+  intros V B f m. induction m as [|k v l IHl r IHr]; intro z.
+  - reflexivity.
+  - cbn [MapGen.foldl StdSpec.elements]. rewrite IHl, IHr, fold_left_app. reflexivity.
+Qed.
+
+Theorem foldr_key_order : forall (V B : Type) (f : V -> B -> B) z (m : Map K V),
+  MapGen.foldr f z m = fold_right f z (MapGen.values m).
+Proof.
+  intros V B f z m. rewrite foldr_elements, values_elements.
+  induction (elements m) as [|kv xs IH]; cbn; [reflexivity | now rewrite IH].
+Qed.
+
+Theorem foldl_key_order : forall (V B : Type) (f : B -> V -> B) z (m : Map K V),
+  MapGen.foldl f z m = fold_left f (MapGen.values m) z.
+Proof.
+  intros V B f z m. rewrite foldl_elements, values_elements.
+  revert z. induction (elements m) as [|kv xs IH]; intro z; cbn; [reflexivity | now rewrite IH].
+Qed.
+
 End MapMore.
 
 (* non-vacuity: a concrete search tree, and append's right bias on a common key *)
